@@ -28,7 +28,6 @@ pub struct CliCase {
 struct Env {
     xdg: PathBuf,
     any: PathBuf,
-    db: Db,
 }
 
 fn env() -> &'static Env {
@@ -38,10 +37,22 @@ fn env() -> &'static Env {
         let _ = std::fs::remove_dir_all(&xdg);
         std::fs::create_dir_all(&xdg).expect("private data dir");
         std::env::set_var("XDG_DATA_HOME", &xdg);
-        let db = Db::open().expect("Db::open under a private XDG_DATA_HOME");
+        // the first start builds the on-disk index; later per-thread opens only read it
+        drop(Db::open().expect("Db::open under a private XDG_DATA_HOME"));
         let any = std::env::current_exe().unwrap().parent().unwrap().join("any");
-        Env { xdg, any, db }
+        Env { xdg, any }
     })
+}
+
+/// The on-disk database the binary also uses, one handle per thread (`Db` need not be `Sync`).
+fn cli_db() -> &'static Db {
+    thread_local! {
+        static DB: &'static Db = {
+            env();
+            Box::leak(Box::new(Db::open().expect("Db::open under a private XDG_DATA_HOME")))
+        };
+    }
+    DB.with(|d| *d)
 }
 
 pub fn cleanup() {
@@ -178,6 +189,10 @@ fn expected_stdout(db: &Db, query: &str, exact: bool) -> Result<(String, Vec<&'s
             match r {
                 Ok(v) => {
                     if exact {
+                        // "the reduced numerator, a slash and denominator": what is printed must be in lowest terms, sign in the numerator
+                        if !crate::tool::is_canonical(&v.value) {
+                            classes.push("EXACT-NOT-REDUCED");
+                        }
                         if v.value.denom().is_one() {
                             write!(out, "{}", v.value.numer()).unwrap();
                         } else {
@@ -259,12 +274,15 @@ fn check(c: &CliCase) -> CaseReport {
     let mut all_classes = vec![];
     let mut nontrivial = false;
     for exact in [false, true] {
-        let (want, classes, faithful) = match expected_stdout(&e.db, q, exact) {
+        let (want, classes, faithful) = match expected_stdout(cli_db(), q, exact) {
             Ok(x) => x,
             Err(_) => return CaseReport::discard(q, "library panics (C11's finding, not judged here)"),
         };
         if !faithful {
             return CaseReport::fail(q, "default-rendering-not-faithful", json!({"query": q, "expected_stdout": want}));
+        }
+        if classes.contains(&"EXACT-NOT-REDUCED") {
+            return CaseReport::fail(q, "exact:fraction-not-reduced", json!({"query": q, "exact_stdout_would_be": want}));
         }
         if classes.contains(&"UNIT-MISMATCH") {
             let (got, model) = want.split_once('\u{0}').unwrap_or((&want, ""));
